@@ -24,49 +24,49 @@ NA = {
 CHECKS = {
     "C01": dict(
         category="fault_enumeration", design_ref="DESIGN.md section 6 (C01)",
-        technique="deterministic simulation: seeded write->read histories over a simulated disk and stream stack (short reads/writes, tiny buffers, split multi-byte characters), storage histories (aborted writes, in-place edit + rewrite onto the same path with the modification time restored, streams handed in at a non-zero position), Decimal reference oracle, ddmin-minimised replay files",
+        technique="deterministic simulation: seeded write->read histories over a simulated disk and stream stack (short reads/writes, tiny buffers, split multi-byte characters), storage histories (aborted writes, in-place edit + rewrite onto the same path with the modification time restored, streams handed in at a non-zero position), Decimal reference oracle, ddmin-minimised replay files; a read that fails part-way right before the judged reads; other spellings of the target path (symlinked directory + `..`); numberings that are not parent-first; non-NFC comments; headers beyond one MiB",
         text="Seeded search over trees x writer options x source kinds x stream schedules; every benign stream fault must leave the round trip exact. Sampling, not proof: a clean batch is evidence only.",
         note="Trusts CPython's io stack, the Decimal-based rounding oracle and the tree generator's notion of well-formed (ids 0..n-1, node 0 the root, numbering parent-first or not, float32 finite values, int32 types).",
     ),
     "C02": dict(
         category="fault_enumeration", design_ref="DESIGN.md section 6 (C02)",
-        technique="deterministic simulation with fault injection: seeded SWC texts + storage faults (bad token, dropped fields, line dup/del/swap/glue, truncation, byte flip, undecodable byte) + stream faults (EIO at an offset, short reads, tiny buffers/chunks) line ends aligned to power-of-two block boundaries, against an independent line recogniser; ddmin shrinking; fresh-interpreter replay",
+        technique="deterministic simulation with fault injection: seeded SWC texts + storage faults (bad token, dropped fields, line dup/del/swap/glue, truncation, byte flip, undecodable byte) + stream faults (EIO at an offset, short reads, tiny buffers/chunks) line ends aligned to power-of-two block boundaries, against an independent line recogniser; ddmin shrinking; fresh-interpreter replay; MiB-sized texts; encoding='detect' on pure-ASCII bytes; extra_cols as one-shot iterables; conditional oracle for tokens only Python calls numeric",
         text="Every run stores a generated text, damages it, and reads it 1-3 times through path/BytesIO/TextIOWrapper/StringIO sources under a generated stream schedule; verdicts are three-valued (MUST_ACCEPT / MUST_REJECT / EITHER) so only what the statement demands is enforced. Sampling over seeds, not exhaustive.",
         note="Trusts models/swc_text.py as the statement of the line grammar, Python's float() for the numeric value of a strictly-spelled token, and CPython's io/codecs stack.",
     ),
     "C03": dict(
         category="exploration", design_ref="DESIGN.md section 6 (C03)",
-        technique="deterministic simulation of operation histories: seeded pipelines of tree->tree operations over a pool of live trees with bit-exact snapshots, np.shares_memory aliasing sweep, edit and read-only query steps between operations, callbacks that raise mid-traversal (cancellation fault)",
+        technique="deterministic simulation of operation histories: seeded pipelines of tree->tree operations over a pool of live trees with bit-exact snapshots, np.shares_memory aliasing sweep, edit and read-only query steps between operations, callbacks that raise mid-traversal (cancellation fault); abandoned SWC writes among the cancellation faults; extra per-node columns; trees of 1100-7000 nodes",
         text="After every step: result well-formed, every other live tree bit-identical to its snapshot, no storage shared (extra per-node columns included). Seeded sampling of programs <= 14 steps on trees <= 40 nodes, plus one run in fifty on a tree of 1100-7000 nodes.",
         note="Admissible arguments are computed on the model side; Identity/empty Transforms are excluded (documented to return their argument).",
     ),
     "C09": dict(
         category="exploration", design_ref="DESIGN.md section 6 (C09)",
-        technique="deterministic simulation of read/write/copy/detach histories on trees and their views against a list-of-dicts mirror model, checked after every step (incl. pid writes, strided/extra columns, caller edits of returned containers)",
+        technique="deterministic simulation of read/write/copy/detach histories on trees and their views against a list-of-dicts mirror model, checked after every step (incl. pid writes, strided/extra columns, caller edits of returned containers); node handles of views kept alive; columns filled in by the constructor; owners built by cat_tree / get_subtree",
         text="Every live handle must read what the mirror says after every step; writes through Tree.Node handles must be visible everywhere on the owner and nowhere on copies/detached objects. No fault kinds exist for in-memory views: pure history exploration.",
         note="Writes are issued only through node handles obtained from a tree, as the statement says.",
     ),
     "C13": dict(
         category="exploration", design_ref="DESIGN.md section 6 (C13)",
-        technique="deterministic simulation of the hidden RNG seam: each configuration evaluated under several seeded and injected np.random.rand schedules (parallel / near-parallel draws forcing the redraw loop), compared with an exact 1-D integration reference and across schedules; follow-up configurations in the same process under a simulated identity allocator (id() reuse decided by the simulator)",
+        technique="deterministic simulation of the hidden RNG seam: each configuration evaluated under several seeded and injected np.random.rand schedules (parallel / near-parallel draws forcing the redraw loop), compared with an exact 1-D integration reference and across schedules; follow-up configurations in the same process under a simulated identity allocator (id() reuse decided by the simulator); a sampled estimate asked before the plain call; one sphere object met by two frusta; radius ratios up to 1e4; integer lengths beyond 2**21",
         text="The sphere-frustum closed form reads the process-global RNG; results must agree with the reference and with each other under every schedule. Seeded sampling of configurations.",
         note="Reference: volume of a body of revolution integrated piecewise exactly; relative tolerance 1e-6 (float64) .",
     ),
     "C14": dict(
         category="exploration", design_ref="DESIGN.md section 6 (C14)",
-        technique="deterministic simulation of the RNG seams under get_volume (global np.random state reseeded / draws injected per schedule) on seeded collinear trees against an exact union-of-revolution reference; session histories (radius edits, shared extractor and spec objects, a failing call in between, follow-up trees along mirrored directions)",
+        technique="deterministic simulation of the RNG seams under get_volume (global np.random state reseeded / draws injected per schedule) on seeded collinear trees against an exact union-of-revolution reference; session histories (radius edits, shared extractor and spec objects, a failing call in between, follow-up trees along mirrored directions); caller's logging at DEBUG; nearly equal and zero neighbouring radii; arms of a thousand nodes and more at levels 1 and 2",
         text="Levels 1 and 2 compared with exact sums on arbitrary trees; levels >= 3 compared with the exact union volume on collinear trees, under several RNG schedules which must agree.",
         note="float32 geometry inside the library: relative tolerance 1e-4; Monte-Carlo branch (branching root at level >= 5) compared at 3 sigma-equivalent 5% tolerance only.",
     ),
     "C15": dict(
         category="fault_enumeration", design_ref="DESIGN.md section 6 (C15)",
-        technique="deterministic simulation with fault injection: generated ASC documents, every truncation offset / sampled single-point corruptions / EIO mid-read, read through the simulated stream stack; file replaced in place with its modification time restored, earlier results re-checked after later conversions; independent recogniser as oracle; ddmin shrinking",
+        technique="deterministic simulation with fault injection: generated ASC documents, every truncation offset / sampled single-point corruptions / EIO mid-read, read through the simulated stream stack; file replaced in place with its modification time restored, earlier results re-checked after later conversions; independent recogniser as oracle; ddmin shrinking; a second conversion cutting in at the k-th read of the first one's stream (interleaving at the I/O seam decided by the simulator); splits with a thousand alternatives",
         text="MUST_ACCEPT documents must convert to exactly the expected node table; truncated or corrupted documents the recogniser rejects must raise; decorated and bare documents must agree.",
         note="Trusts models/asc_model.py as the statement of the supported grammar; documents outside it are judged EITHER.",
     ),
     "C18": dict(
         category="exploration", design_ref="DESIGN.md section 6 (C18)",
-        technique="deterministic simulation of union/find histories and parent-table edit histories against brute-force models under a deterministic step budget (hang = replayable event), one DataFrame edited in place between diagnoses, plus one multi-root file read repeatedly through the simulated disk under generated sequences of repair modes",
+        technique="deterministic simulation of union/find histories and parent-table edit histories against brute-force models under a deterministic step budget (hang = replayable event), one DataFrame edited in place between diagnoses, plus one multi-root file read repeatedly through the simulated disk under generated sequences of repair modes; rows listed before the first root; ids beyond 2**53; ask-then-unite DSU idiom with the oracle's own queries asked of a copy",
         text="DSU answers vs naive partition after every step; the four checkers vs brute force after every table edit (forests, cycles, self loops) within a line-event budget; root repair modes through real files.",
         note="Step budget is >= 100x what the largest generated input needs.",
     ),
